@@ -98,6 +98,7 @@ def simulate(case):
         if o == 'window': wlo, whi = int(t[1]), int(t[2]); out.append('window')
         elif o == 'diag': E[t[1]] = Obj.exact(diag_at(2)); out.append('diag')
         elif o == 'gdiag': G[t[1]] = Obj.grid(diag_at(5), int(t[2]), int(t[3]), int(t[4])); out.append('gdiag')
+        elif o == 'gdiagl': ob_ = Obj.grid(diag_at(6), int(t[2]), int(t[3]), int(t[4])); G[t[1]] = Obj(ob_.lv[:int(t[5])]); out.append('gdiagl')
         elif name == 'eval':
             ob = S.get(t[1], Obj([]))
             for k in range(int(t[2])):
@@ -239,6 +240,15 @@ def gen_grid(rng):
         d = grid_ok(rand_diag(rng, 0, hi, step), g0, g1, n); lines.append('gdiag %d %d %d %d %s' % (i, g0, g1, n, dline(d)))
         objs[i] = Obj.grid([(Fr(b), Fr(e)) for b, e in d], g0, g1, n); sizes[i] = len(d)
         lines.append('geval %d %d' % (i, len(d) + 1))
+        if rng.random() < 0.5:
+            # the constructor with a bounded number of levels, on a richer diagram (several intervals over the same grid points, in random order):
+            # the levels it keeps must be the first ones
+            d2 = list(d) + grid_ok(rand_diag(rng, 0, hi, step), g0, g1, n) + grid_ok(rand_diag(rng, 0, hi, step), g0, g1, n); rng.shuffle(d2)
+            if len(d2) >= 3:
+                nl_ = rng.randrange(2, min(len(d2), 4)); j_ = rng.randrange(3, 6)
+                full_ = Obj.grid([(Fr(b), Fr(e)) for b, e in d2], g0, g1, n)
+                lines.append('gdiagl %d %d %d %d %d %s' % (j_, g0, g1, n, nl_, dline(d2))); objs[j_] = Obj(full_.lv[:nl_]); sizes[j_] = nl_
+                lines.append('geval %d %d' % (j_, nl_))
     for _ in range(rng.randrange(2, 8)):
         x = rng.random(); ok = list(objs)
         if x < 0.3:
